@@ -976,6 +976,60 @@ def inflight_cases(jobs):
     return out
 
 
+def mixed_history_cases(jobs):
+    """C04 on a function one position of which takes both types (a type[...] method) and ordinary instances, the
+    instances of different classes comparing and hashing equal: job = {id, seq: [arg names]}.  Every call is
+    repeated on a brand-new function."""
+    from ovld import Ovld
+
+    from .observe import classify
+
+    out = []
+    for job in jobs:
+        try:
+            eq = {"__module__": "vfworld", "__eq__": lambda self, other: True, "__hash__": lambda self: 7}
+            A = type("A", (), dict(eq))
+            B = type("B", (A,), dict(eq))
+            C = type("C", (), dict(eq))
+            ns = {"A": A, "B": B, "C": C, "LOG": []}
+            src = ("def mt(x: type[A]):\n    LOG.append('mt')\ndef ma(x: A):\n    LOG.append('ma')\n"
+                   "def mc(x: C):\n    LOG.append('mc')\ndef mf(x: float):\n    LOG.append('mf')\n"
+                   "def mb(x: bool):\n    LOG.append('mb')\ndef mi(x: int):\n    LOG.append('mi')\n")
+            exec(src, ns, ns)
+            ids = ["mt", "ma", "mc", "mf", "mb", "mi"]
+            args = {"a": A(), "b": B(), "c": C(), "A": A, "B": B, "C": C, "one": 1, "true": True, "onef": 1.0, "s": "s"}
+
+            def build():
+                f = Ovld()
+                for m in ids:
+                    f.register(ns[m])
+                return f
+
+            def call(f, name):
+                del ns["LOG"][:]
+                try:
+                    f(args[name])
+                    kind = "run"
+                except BaseException as e:  # noqa
+                    kind = classify(e)
+                    e.__traceback__ = None
+                return {"kind": kind, "entered": [{"m": m} for m in ns["LOG"]], "ret": ""}
+
+            f = build()
+            steps = [{"op": "register", "m": m} for m in ids]
+            ref = job.get("reference")
+            for name in job["seq"]:
+                # oracle: the same call as the first call ever made in a new interpreter (job["reference"], computed by
+                # jobs with a one-element seq run with fresh_each); a fresh function in this process when absent
+                steps.append({"op": "call", "call": {"arg": name}, "obs": call(f, name),
+                              "fresh": ref[name] if ref else call(build(), name),
+                              "fresh_methods": ids, "counts": {"user": 0, "tm_miss": 0, "mtm_miss": 0, "plain_miss": 0}})
+            out.append({"id": job["id"], "props": ["C04"], "steps": steps})
+        except Exception:
+            out.append({"id": job["id"], "skip": "harness: " + traceback.format_exc()[-700:]})
+    return out
+
+
 def build_trace_cases(jobs):
     """Executions of the lazy build recorded as event traces for Trace_Build.tla.
     job = {id, world, threads:{A: call, B: call}, granularity, switches ('sweep1' | 'sweepab' | [[..]]),
